@@ -142,6 +142,13 @@ class VDyn(Value):
         return "VDyn(%s)" % self.tag
 
 
+def same_dyn(a, b):
+    """a and b are the very same dynamic value (not merely ==)"""
+    a, b = dyn_of(a), dyn_of(b)
+    return z3.And(a.tag == b.tag, z3.Implies(a.is_num(), a.num == b.num), z3.Implies(a.tag == T_STR, a.s == b.s),
+                  z3.Implies(z3.And(a.tag >= T_FUNC, a.tag <= T_OBJ), a.oid == b.oid))
+
+
 def dyn_of(v):
     """inject a statically typed value into VDyn"""
     if isinstance(v, VDyn):
